@@ -18,14 +18,14 @@ RULE = ("(role, phase, cut class, stall style) enumerated; phases: before RQ/AC,
         "between command and data set, mid data set (PDU boundary and inside a PDU), request without response, release RQ without RP, "
         "mid RELEASE-RP; cut offsets 0,1,5,6,7,len-1,random; styles silent / partial-then-silent / dribble; distinct = (role, phase, "
         "cut class, style); non-trivial = the stall point was reached (bytes delivered as planned)")
-ASSUMPTIONS = ["all four timeouts 0.5 s; watchdog 6 s after the stall began (>= 10 x the relevant timeout plus margin)",
+ASSUMPTIONS = ["all four timeouts 0.5 s; watchdog 9 s after the stall began (>= 10 x the relevant timeout plus margin)",
                "the peer never closes the TCP connection during the observation window"]
 WORKERS = {"quick": 16, "thorough": 16}
 REQUIRE = {"scenarios": 40, "acceptor_scenarios": 20, "requestor_scenarios": 15, "stall_points_reached": 40, "stream_scenarios": 10, "skewed_timeout_scenarios": 10, "tls_scenarios": 2}
 VER = "1.2.840.10008.1.1"
 CT = "1.2.840.10008.5.1.4.1.1.2"
 T = 0.5
-WATCHDOG = 6.0
+WATCHDOG = 9.0
 
 
 def setup_worker():
@@ -33,8 +33,8 @@ def setup_worker():
     taps.install()
 
 
-BIG = 4.5          # an unrelated timeout in the skewed variants
-SOFT = 3.0         # ... by when everything must be over there (relevant timeouts: 0.5 s each, at most two of them in a row)
+BIG = 7.0          # an unrelated timeout in the skewed variants
+SOFT = 4.5         # ... by when everything must be over there (relevant timeouts: 0.5 s each, at most two of them in a row)
 
 
 def timeouts_for(case):
